@@ -71,9 +71,7 @@ func (c Conj) get(id int32) (bool, bool) {
 // with returns c plus literal (id,val); ok=false if contradictory.
 func (c Conj) with(id int32, val bool) (Conj, bool) {
 	if cur, known := c.get(id); known {
-		if cur != val {
-			return c, false
-		}
+		return c, cur == val
 	} else {
 		l := id * 2
 		if val {
